@@ -162,10 +162,15 @@ func genHPHistory(rng *rand.Rand, s hpSetup, pool []*variant, ases []addr.IA, nO
 					op.Peer = pick(rng, g.Writers)
 				}
 			}
-			for i, n := 0, []int{0, 1, 1, 1, 2, 2, 3}[rng.IntN(7)]; i < n; i++ {
+			nSegs := []int{0, 1, 1, 1, 2, 2, 3}[rng.IntN(7)]
+			big := rng.IntN(14) == 0
+			if big {
+				nSegs = 17 + rng.IntN(40) // large registrations (size limits of batch handling)
+			}
+			for i, n := 0, nSegs; i < n; i++ {
 				v := rng.IntN(len(pool))
 				t := seg.TypeDown
-				if rng.IntN(12) == 0 {
+				if (!big && rng.IntN(12) == 0) || (big && i == n-1-rng.IntN(3) && rng.IntN(2) == 0) {
 					t = pick(rng, []seg.Type{seg.TypeUp, seg.TypeCore})
 				}
 				op.Segs = append(op.Segs, regSeg{V: v, Label: pool[v].Label, Type: int(t)})
